@@ -322,14 +322,18 @@ Section Solid.
 End Solid.
 
 (* scripts: non-adaptive programs given as data (used by the correspondence run and the witnesses) *)
-Inductive item := IText (s : str) | IUniq (key base_token prefix suffix : str) | IMemo (q : str).
+Inductive item := IText (s : str) | IUniq (key base_token prefix suffix : str) | IMemo (q : str)
+                | IMark.                     (* "<path of the template file that is being rendered>" *)
 
-Fixpoint prog_of_script (s : list item) : prog :=
+Definition mark_of (tmpl : option str) : str := match tmpl with Some p => [60] ++ p ++ [62] | None => [60; 62] end.
+
+Fixpoint prog_of_script (tmpl : option str) (s : list item) : prog :=
   match s with
   | [] => PDone
-  | IText t :: s' => PEmit t (prog_of_script s')
-  | IUniq k b p x :: s' => PUniq k b p x (fun name => PEmit name (prog_of_script s'))
-  | IMemo q :: s' => PMemo q (fun v => PEmit v (prog_of_script s'))
+  | IText t :: s' => PEmit t (prog_of_script tmpl s')
+  | IUniq k b p x :: s' => PUniq k b p x (fun name => PEmit name (prog_of_script tmpl s'))
+  | IMemo q :: s' => PMemo q (fun v => PEmit v (prog_of_script tmpl s'))
+  | IMark :: s' => PEmit (mark_of tmpl) (prog_of_script tmpl s')
   end.
 
 (* rendering given as a table (configuration, type key) -> script; the type object's body and its dependencies' bodies
@@ -343,16 +347,15 @@ Fixpoint obj_sig (fuel : nat) (o : tyobj) : str :=
 Fixpoint obj_depth (o : tyobj) : nat :=
   match o with TyObj _ _ _ deps => S (fold_right (fun d m => Nat.max (obj_depth d) m) O deps) end.
 
-(* every user template of the correspondence run starts with a marker naming the template file: "<path>" *)
-Definition tmpl_marker (markers : bool) (tmpl : option str) : str :=
-  if markers then match tmpl with Some p => [60] ++ p ++ [62] | None => [60; 62] end else [].
+(* markers = true: every file additionally STARTS with the marker *)
+Definition tmpl_marker (markers : bool) (tmpl : option str) : str := if markers then mark_of tmpl else [].
 
 Definition table_render (markers : bool) (tab : list (ckey * list item)) (cf : N) (tmpl : option str) (o : tyobj) : prog :=
   PEmit (tmpl_marker markers tmpl)
   match o with
   | TyObj k _ _ _ =>
       match find (fun e => ckey_eqb (fst e) (cf, k)) tab with
-      | Some e => prog_of_script (snd e)
+      | Some e => prog_of_script tmpl (snd e)
       | None => PEmit (obj_sig (obj_depth o) o) PDone
       end
   end.
